@@ -6,7 +6,9 @@ package c12
 // by one goroutine each through the SAME decoder; every result must equal the line's solo result.
 
 import (
+	"encoding/json"
 	"fmt"
+	"strings"
 	"sync"
 	"testing"
 
@@ -20,9 +22,31 @@ type SharedCase struct {
 	Docs   []CutCase      `json:"docs"`   // only Doc / NL / EscapeAll are used
 	Limits map[string]int `json:"limits"` // json_max_fields_size of the shared decoder
 	Reps   int            `json:"reps"`
+	// Decoder != "": any decoder type with its generated parameters and 2..4 generated lines (Lines) instead
+	// of the json documents above
+	Decoder string         `json:"decoder,omitempty"`
+	Params  map[string]any `json:"params,omitempty"`
+	Lines   [][]byte       `json:"lines,omitempty"`
 }
 
+var protoNames = []string{"my_string", "other_str", "zzzzzzzzz", "a_b_c_d_e"}
+
 func genShared(t *rapid.T) SharedCase {
+	if rapid.IntRange(0, 1).Draw(t, "any_decoder") == 0 {
+		dec := rapid.SampledFrom([]string{"json", "nginx_error", "protobuf", "protobuf", "syslog_rfc3164", "syslog_rfc5424", "csv"}).Draw(t, "decoder")
+		c := SharedCase{Reps: 150, Decoder: dec, Params: genParams(t, dec)}
+		for i, n := 0, rapid.IntRange(2, 4).Draw(t, "nlines"); i < n; i++ {
+			line := genLine(t, dec)
+			if dec == "protobuf" && rapid.IntRange(0, 2).Draw(t, "valid_proto") > 0 {
+				// the sample message with another 9-byte string and another number: still well-formed
+				line = []byte(seeds["protobuf"][0])
+				copy(line[4:13], rapid.SampledFrom(protoNames).Draw(t, "proto_name"))
+				line[14] = byte(rapid.IntRange(1, 127).Draw(t, "proto_num"))
+			}
+			c.Lines = append(c.Lines, line)
+		}
+		return c
+	}
 	c := SharedCase{Limits: map[string]int{}, Reps: 150}
 	n := rapid.IntRange(2, 4).Draw(t, "ndocs")
 	for i := 0; i < n; i++ {
@@ -42,9 +66,12 @@ func genShared(t *rapid.T) SharedCase {
 	return c
 }
 
-func sharedDecode(d decoder.Decoder, line []byte) (string, error) {
+func sharedDecode(d decoder.Decoder, line []byte, prefill bool) (string, error) {
 	root := insaneJSON.Spawn()
 	defer insaneJSON.Release(root)
+	if prefill {
+		_ = root.DecodeString("{}")
+	}
 	buf := append(make([]byte, 0, len(line)+8), line...) // the decoder may cut inside the line: a private copy per call
 	if err := d.DecodeToJson(root, buf); err != nil {
 		return "", err
@@ -52,31 +79,68 @@ func sharedDecode(d decoder.Decoder, line []byte) (string, error) {
 	return root.EncodeToString(), nil
 }
 
+// canonJSON: key order is not part of a decoder's result (nginx custom fields come out of a map).
+func canonJSON(s string) string {
+	var v any
+	dec := json.NewDecoder(strings.NewReader(s))
+	dec.UseNumber()
+	if err := dec.Decode(&v); err != nil {
+		return s
+	}
+	b, err := json.Marshal(v)
+	if err != nil {
+		return s
+	}
+	return string(b)
+}
+
 func runShared(c SharedCase) *vkit.Outcome {
 	o := vkit.NewOutcome()
-	if len(c.Docs) < 2 || len(c.Docs) > 8 || c.Reps < 1 || c.Reps > 2000 {
+	if c.Reps < 1 || c.Reps > 2000 {
 		o.Class("invalid-case")
 		return o
 	}
-	lm := map[string]any{}
-	for k, v := range c.Limits {
-		lm[k] = float64(v)
+	var d decoder.Decoder
+	var err error
+	var lines [][]byte
+	typ := decoder.JSON
+	if c.Decoder != "" {
+		typ = decoder.TypeFromString(c.Decoder)
+		if typ == decoder.CRI || typ == decoder.POSTGRES || typ == decoder.NO || len(c.Lines) < 2 || len(c.Lines) > 8 {
+			o.Class("invalid-case")
+			return o
+		}
+		d, err = decoder.New(typ, decoder.Params(c.Params))
+		lines = c.Lines
+		o.Class("shared-decoder=" + c.Decoder)
+	} else {
+		if len(c.Docs) < 2 || len(c.Docs) > 8 {
+			o.Class("invalid-case")
+			return o
+		}
+		lm := map[string]any{}
+		for k, v := range c.Limits {
+			lm[k] = float64(v)
+		}
+		d, err = decoder.New(decoder.JSON, decoder.Params(map[string]any{"json_max_fields_size": lm}))
+		for _, dc := range c.Docs {
+			if _, perr := vkit.ParseJSON([]byte(dc.Doc)); perr != nil {
+				o.Class("generator-produced-invalid-json")
+				return o
+			}
+			lines = append(lines, renderDoc(FidCase{Doc: dc.Doc, NL: dc.NL, EscapeAll: dc.EscapeAll}))
+		}
+		o.Class("shared-decoder=json-with-limits")
 	}
-	d, err := decoder.New(decoder.JSON, decoder.Params(map[string]any{"json_max_fields_size": lm}))
 	if err != nil {
 		o.Class("params-rejected")
 		return o
 	}
-	lines := make([][]byte, len(c.Docs))
-	solo := make([]string, len(c.Docs))
-	soloErr := make([]error, len(c.Docs))
-	for i, dc := range c.Docs {
-		if _, perr := vkit.ParseJSON([]byte(dc.Doc)); perr != nil {
-			o.Class("generator-produced-invalid-json")
-			return o
-		}
-		lines[i] = renderDoc(FidCase{Doc: dc.Doc, NL: dc.NL, EscapeAll: dc.EscapeAll})
-		solo[i], soloErr[i] = sharedDecode(d, lines[i])
+	prefill := typ != decoder.JSON && typ != decoder.PROTOBUF // what Pipeline.In does before DecodeToJson
+	solo := make([]string, len(lines))
+	soloErr := make([]error, len(lines))
+	for i := range lines {
+		solo[i], soloErr[i] = sharedDecode(d, lines[i], prefill)
 	}
 	var wg sync.WaitGroup
 	var mu sync.Mutex
@@ -95,8 +159,8 @@ func runShared(c SharedCase) *vkit.Outcome {
 			}()
 			start.Wait()
 			for rep := 0; rep < c.Reps; rep++ {
-				got, err := sharedDecode(d, lines[i])
-				if (err != nil) != (soloErr[i] != nil) || got != solo[i] {
+				got, err := sharedDecode(d, lines[i], prefill)
+				if (err != nil) != (soloErr[i] != nil) || (got != solo[i] && canonJSON(got) != canonJSON(solo[i])) {
 					mu.Lock()
 					o.Failf(P, "shared-decoder:result-depends-on-concurrent-calls", "line %q (limits %v): decoded alone -> %q (err %v), decoded while %d other goroutines use the same decoder (repetition %d) -> %q (err %v)", lines[i], c.Limits, solo[i], soloErr[i], len(lines)-1, rep, got, err)
 					mu.Unlock()
@@ -113,9 +177,21 @@ func runShared(c SharedCase) *vkit.Outcome {
 			cut++
 		}
 	}
-	if cut >= 2 && len(c.Limits) >= 2 {
+	if c.Decoder == "" && cut >= 2 && len(c.Limits) >= 2 {
 		o.Nontrivial(P)
 		o.Class("shared-decoder:two-lines-cut-concurrently")
+	}
+	if c.Decoder != "" {
+		distinct := map[string]bool{}
+		for i := range solo {
+			if soloErr[i] == nil {
+				distinct[solo[i]] = true
+			}
+		}
+		if len(distinct) >= 2 {
+			o.Nontrivial(P)
+			o.Class("shared-decoder:two-different-lines-accepted")
+		}
 	}
 	if o.Failed() {
 		o.AppendContext(fmt.Sprintf("limits %v", c.Limits))
